@@ -473,6 +473,16 @@ func (r *Runner) RunScenario(sc *Scenario) {
 	}
 	c.twinObs(init)
 	c.tb = &txBuilder{n: n, unit: w.UnitInt(), built: map[string]*BuiltTx{}, checks: c.u.Checks, height: func() uint64 { return c.h + 1 }}
+	c.tb.check = func(raw []byte) uint32 {
+		if c.nd == nil || c.dead {
+			return 1
+		}
+		r, res := c.nd.Check(raw)
+		if res.Panic != "" {
+			return 1
+		}
+		return r.Code
+	}
 	c.diskProjection(init)
 	c.proj(init, c.h)
 	if info, ires := nd.Info(); ires.Panic == "" {
